@@ -618,7 +618,6 @@ func TestVerifGME(t *testing.T) {
 	fmt.Printf("VERIF-GME scripts=%d events=%d\n", ns, ne)
 }
 
-
 // execConc: a concurrent section of a GCPMultiEndpoint script. Operations: rpc (Invoke) and update. Gates: the
 // acquisitions and releases of gme.mu in the rewritten gcp_multiendpoint.go (binary built with the gate rewrite);
 // monitor goroutines are not part of the section and pass the gates freely.
